@@ -43,6 +43,9 @@ func main() {
 	nMulti := r.Pick(9, 240)
 	r.Rule("family blockfail (scripted failures of the block download the client arbitrates a filter-header conflict with): a coalition of 1-4 peers serving one identical self-consistent false filter for a block (an output script omitted; sometimes an unprovable padded filter) next to 1-3 honest peers it mostly outnumbers (also ties and minorities), optionally a wrong-hash/unserved liar about the same block, a second disputed block or a silent peer; GetBlock fails the first 1-3 times per block / overall, or for the whole session; for every block, only for disputed blocks, or (control) only for undisputed ones; errors: query timeout, job canceled, no peer delivered; both conflict paths (at-tip; differing checkpoint lists on chains of 1000-2300 blocks); growth/reorganisations between rounds. The first plans are seed-independent (2 liars + 1 honest, at the tip, one failed download; the same between checkpoint lists; 3 liars + 1 honest and the block never arrives; two failed rounds with a fourth wrong-hash peer and growth). Same oracle; a session that ends behind while the scripted download failed in its last three rounds gets no verdict from the progress rule. fingerprint additionally carries the family name and the fault")
 	nBF := r.Pick(16, 400)
+	r.Rule("family truncbatch (truncated cfheaders batches on chains of 2000-4300 blocks): peers answering a getcfheaders with the requested stop hash, the right previous filter header and only the first N true filter hashes - N = one whole checkpoint interval of a two-interval request (the batch hashes up to the intermediate checkpoint) or an odd count (1, 999, 1001, 1500, random); the truncating peer alone / every peer truncating / truncating peers next to honest ones (sometimes with a provable liar or a silent peer); chains of 3000+ so that a further batch is written after the truncated answer. The first plans are seed-independent (lone; all peers with a further batch; two truncating + one honest; four odd truncations + one honest). Same oracle: a truncated batch says nothing false about any block, so with an honest peer present the ground truth is committed, the session does not end behind and no honest peer is banned; in every session the filter store stays readable up to the tip it names and no block-manager call panics (a panic in a step after which the stores cannot be read back is reported too)")
+	r.Rule("family twostage (checkpointed sync starting from a partially stored interval): stage 1 syncs a chain of PreLen blocks completely (filter tip = PreLen: 20-900, 1000+x, 2000+x, sometimes exactly on a checkpoint), stage 2 lets the honest chain end 1000-2500 blocks higher (sometimes forking 1-30 blocks below the stage-1 tip), syncs the block headers and continues the filter rounds; honest peers, provable / other liars, truncating peers, silent peers, growth and reorganisations mixed in. The first plans are seed-independent (332 -> 1500 honest; 1007 -> 3100 with a provable liar; 600 forked by 5 -> 3050 with a truncating peer). Same oracle")
+	nTrunc, nTwo := r.Pick(12, 300), r.Pick(7, 200)
 	cbs := l1.FilterCallbacks{
 		OnStep: func(fs *l1.FilterSession, st *l1.StepObs) {
 			changed := len(st.PreF) != len(st.PostF)
@@ -68,6 +71,11 @@ func main() {
 		},
 		OnStoreErr: func(fs *l1.FilterSession, st *l1.StepObs, err error) {
 			r.Violation(evid.Sig("c03/store-unreadable", fs.Plan.ReorgAt), fmt.Sprintf("stores unreadable: %v", err), witness(fs, st))
+			// The step that left the stores unreadable never reached OnStep:
+			// a panic of the block manager in it is reported here.
+			if fs.PanicKind != "" {
+				r.Violation(evid.Sig("c03/panic", fs.PanicKind), "block manager panicked: "+fs.PanicText, witness(fs, st))
+			}
 		},
 		OnEnd: func(fs *l1.FilterSession, err error) {
 			r.Count("sessions", 1)
@@ -94,9 +102,12 @@ func main() {
 			r.Count("bans_observed", int64(len(fs.Bans)))
 			r.Count("lists_contradicting_a_hardcoded_checkpoint", int64(fs.CPListsContradicting))
 			r.Count("lists_false_at_older_checkpoint_only", int64(fs.CPListsOlderOnly))
-			if fs.Plan.Family != "" && fs.Plan.BlockFault.Off() {
+			if strings.HasPrefix(fs.Plan.Family, "multicp") && fs.Plan.BlockFault.Off() {
 				r.Count("multicp_sessions", 1)
 				r.Count("sessions:"+fs.Plan.Family, 1)
+			}
+			if strings.HasPrefix(fs.Plan.Family, "truncbatch") || strings.HasPrefix(fs.Plan.Family, "twostage") {
+				countCatchUp(r, fs, len(st.PostF) < len(st.Post))
 			}
 			if !fs.Plan.BlockFault.Off() {
 				countBlockFail(r, fs, len(st.PostF) < len(st.Post))
@@ -111,7 +122,8 @@ func main() {
 	// prints every session's script); never set by registered commands.
 	devOnly := os.Getenv("C03_MULTICP_ONLY") != ""
 	devBF := os.Getenv("C03_BLOCKFAIL_ONLY") != ""
-	if devOnly || devBF {
+	devCU := os.Getenv("C03_CATCHUP_ONLY") != ""
+	if devOnly || devBF || devCU {
 		end := cbs.OnEnd
 		cbs.OnEnd = func(fs *l1.FilterSession, err error) {
 			if fs != nil {
@@ -119,7 +131,9 @@ func main() {
 			}
 			end(fs, err)
 		}
-		if devBF {
+		if devCU {
+			l1.RunCatchUpFilter(r.Seed, nTrunc, nTwo, cbs)
+		} else if devBF {
 			l1.RunBlockFailFilter(r.Seed, nBF, cbs)
 		} else {
 			l1.RunMultiCPFilter(r.Seed, nMulti, cbs)
@@ -129,6 +143,7 @@ func main() {
 	l1.RunManyFilter(r.Seed, nTip, nCp, nHook, cbs)
 	l1.RunMultiCPFilter(r.Seed, nMulti, cbs)
 	l1.RunBlockFailFilter(r.Seed, nBF, cbs)
+	l1.RunCatchUpFilter(r.Seed, nTrunc, nTwo, cbs)
 	// L2 part: the REAL cfHandler loop (cached checkpoints, waits, retries),
 	// real queryAllPeers and work manager, with a reorganisation arriving
 	// while block headers are still syncing and filter headers are part-way.
@@ -212,6 +227,54 @@ func countBlockFail(r *evid.Run, fs *l1.FilterSession, behind bool) {
 			r.Inconclusive("blockfail-fixed-plan-did-not-reach-a-failed-download")
 		} else {
 			r.Count("blockfail_fixed_plans_reaching_a_failed_download", 1)
+		}
+	}
+}
+
+// countCatchUp records what a session of the truncbatch / twostage families
+// observed, and that the seed-independent plans reached their shape.
+func countCatchUp(r *evid.Run, fs *l1.FilterSession, behind bool) {
+	r.Count("sessions:"+fs.Plan.Family, 1)
+	all, whole := fs.TruncatedServed()
+	honest := false
+	for _, b := range fs.Plan.Behaviours {
+		honest = honest || b.Honest()
+	}
+	if all > 0 {
+		r.Count("truncated_cfheaders_batches_served", int64(all))
+		r.Count("truncated_cfheaders_batches_served_whole_intervals", int64(whole))
+		r.Count("sessions_with_truncated_batch_served", 1)
+		if honest {
+			r.Count("sessions_with_truncated_batch_served_next_to_honest_peer", 1)
+		}
+		r.Mark(fmt.Sprintf("truncated-batch-served|whole=%v|honest-present=%v|two-stage=%v|behind-at-end=%v", whole > 0, honest, fs.Plan.PreLen > 0, behind))
+	}
+	if strings.HasPrefix(fs.Plan.Family, "truncbatch") && l1.TruncFixedIndex(fs.Plan) >= 0 {
+		if whole == 0 && l1.TruncFixedIndex(fs.Plan) != 3 || all == 0 {
+			r.Inconclusive("truncbatch-fixed-plan-did-not-serve-a-truncated-batch")
+		} else {
+			r.Count("truncbatch_fixed_plans_serving_a_truncated_batch", 1)
+		}
+	}
+	if fs.Plan.PreLen > 0 {
+		r.Count("twostage_sessions", 1)
+		if fs.Stage1Tip == fs.Plan.PreLen {
+			r.Count("twostage_sessions_stage1_synced_to_its_tip", 1)
+		}
+		if fs.Stage2Lag >= 1000 {
+			r.Count("twostage_sessions_stage2_starting_at_least_one_interval_behind", 1)
+		}
+	}
+	if fs.PartialCheckpointed > 0 {
+		r.Count("checkpointed_rounds_starting_from_partially_stored_interval", int64(fs.PartialCheckpointed))
+		r.Count("connected_events_in_those_rounds", int64(fs.PartialCheckpointedEvents))
+		r.Mark(fmt.Sprintf("checkpointed-from-partial-interval|%s", fs.Plan.Family))
+	}
+	if strings.HasPrefix(fs.Plan.Family, "twostage") && l1.TwoStageFixedIndex(fs.Plan) >= 0 {
+		if fs.PartialCheckpointed == 0 {
+			r.Inconclusive("twostage-fixed-plan-did-not-reach-a-checkpointed-round-from-a-partial-interval")
+		} else {
+			r.Count("twostage_fixed_plans_reaching_a_checkpointed_round_from_a_partial_interval", 1)
 		}
 	}
 }
